@@ -43,13 +43,16 @@ theorem effectiveMin_given_is_source (avg : Rat) (m : Int) :
   unfold effectiveMinSize src_antitarget_min_given
   by_cases hm : m = 0
   · subst hm
-    simp only [beq_self_eq_true, if_true, Int.cast_zero, ne_eq, not_true_eq_false, not_false_eq_true]
+    simp only [beq_self_eq_true, if_true, Int.cast_zero, ne_eq, not_true_eq_false, not_false_eq_true,
+      false_or, or_false, or_true, true_or, eq_self_iff_true]
     first
     | exact defaultMinSize_cast avg
     | (rw [defaultMinSize_cast avg]; split_ifs <;> first | rfl | ring | linarith)
   · have hb : (m == 0) = false := by simpa using hm
     have hq : ((m : Rat)) ≠ 0 := by exact_mod_cast hm
-    simp only [hb, hq, ne_eq, not_false_eq_true, not_true_eq_false, if_false, Bool.false_eq_true]
+    have hq' : ¬ ((m : Rat)) = 0 := hq
+    simp only [hb, hq, hq', ne_eq, not_false_eq_true, not_true_eq_false, if_false, Bool.false_eq_true,
+      false_or, or_false, or_self, false_and, and_false]
 
 theorem effectiveMin_absent_is_source (avg : Rat) :
     ((effectiveMinSize avg none : Int) : Rat) = src_antitarget_min_absent avg := by
@@ -74,17 +77,27 @@ theorem chromNamesClash_is_source (a b : Table) :
   unfold chromNamesClash src_chrom_names_clash
   first
   | rfl
-  | (cases h : (chromsInOrder a).isEmpty <;> simp [h, Bool.and_comm])
+  | (cases h : chromsInOrder a <;> simp [Bool.and_comm])
 
 /-- `filter_names` with its default `exclude` -/
+theorem length_pos_decide {α} (l : List α) : decide (l.length > 0) = !l.isEmpty := by
+  cases l <;> simp
+
+theorem length_ge_two_decide {α} (l : List α) : decide (l.length ≥ 2) = decide (l.length > 1) := by
+  apply decide_eq_decide.mpr
+  omega
+
 theorem filterNames_is_source (names : List String) :
     filterNames names = src_filter_names names SHORTEN_EXCLUDE := by
   unfold filterNames src_filter_names
   first
   | rfl
-  | (by_cases h1 : names.length > 1
-     · cases h2 : (names.filter (fun n => !(SHORTEN_EXCLUDE.any (fun ex => n.startsWith ex)))).isEmpty <;>
-         simp [h1, h2]
-     · simp [h1])
+  | (have hp : ∀ n : String, (!(SHORTEN_EXCLUDE.any (fun ex => n.startsWith ex))) =
+         SHORTEN_EXCLUDE.all (fun ex => !(n.startsWith ex)) := fun n => List.not_any_eq_all_not
+     simp only [hp, length_pos_decide, length_ge_two_decide, gt_iff_lt, decide_eq_true_eq]
+     generalize names.filter (fun n => SHORTEN_EXCLUDE.all (fun ex => !(n.startsWith ex))) = ok
+     by_cases h1 : 1 < names.length <;> cases h2 : ok.isEmpty <;>
+       simp only [h1, h2, if_true, if_false, Bool.not_true, Bool.not_false, Bool.false_eq_true,
+         decide_true, decide_false])
 
 end CnvVerif.Src
